@@ -29,7 +29,8 @@ PROPERTY = "C15"
 LEVEL = "model_checking"
 
 MBX = 32
-SLOTS = {"plain": {}, "d1": {"delay": 1}, "d3": {"delay": 3}}
+SLOTS = {"plain": {}, "d1": {"delay": 1}, "d3": {"delay": 3}, "abort": {"abort": True}}
+LOCKDIR = os.path.join(T.WORK, f"c15lf-{os.getpid()}")
 
 
 def user_od(i):
@@ -69,6 +70,10 @@ async def do_op(t, i, kind):
         return await t.sdo_read(idx, None)
     if kind == "wr_exp":
         return await t.sdo_write(bytes([i, 0x22]), idx, 1)
+    if kind == "rd_missing":            # no such object: the terminal aborts, sdo_read raises
+        return await t.sdo_read(0x2F00 + i, 1)
+    if kind == "wr_missing":
+        return await t.sdo_write(bytes([i, 0x33]), 0x2F00 + i, 1)
     if kind == "coe_list":
         return await t.coe_request(CoECmd.SDOINFO, ODCmd.LIST_REQ, "H", 1)
     if kind == "coe_od":
@@ -77,7 +82,15 @@ async def do_op(t, i, kind):
 
 
 def run_scenario(sc):
-    """sc: dict(users=[dict(name, ops=[kind...], start=n_yields)], script=[slot kind...]).
+    """sc: dict(users=[dict(name, ops=[kind...], start=n_yields)], script=[slot kind...],
+               lock="task" | "file-seq" | "file-tasks").
+    lock = "task": the users are tasks sharing one Terminal with the real MailboxLock.
+    lock = "file-seq": every user is a participant with its own Terminal, LockFile and
+        ParallelMailboxLock (from ParallelEtherCat.get_mbx_lock) on one shared lock file; the
+        participants take turns operation by operation (locks of one process do not exclude each
+        other, so they never overlap): the counter travels through the file only.
+    lock = "file-tasks": tasks of one process sharing one Terminal whose lock is the
+        ParallelMailboxLock.
     Returns the trace dict(ev=[...]) for MailboxTrace plus diagnostics."""
     from ebpfcat.ethercat import ECCmd, EtherCat, Terminal
     term = simbus.SimTerminal(station=1001)
@@ -129,28 +142,67 @@ def run_scenario(sc):
                 reads.append(name)
             return put(item)
         ec.send_queue.put_nowait = tagged
-        t = Terminal(ec)
-        t.position = term.station
-        t.mbx_lock = ec.get_mbx_lock(term.station)       # the real MailboxLock
-        t.parse_sync_managers(bytes(term.mem[0x800:0x810]))
+        mode = sc.get("lock", "task")
+        lockfiles = []
+
+        def terminal():
+            t = Terminal(ec)
+            t.position = term.station
+            if mode == "task":
+                t.mbx_lock = ec.get_mbx_lock(term.station)       # the real MailboxLock
+            else:
+                from types import SimpleNamespace
+                from ebpfcat.ebpfcat import ParallelEtherCat
+                from ebpfcat.lock import LockFile
+                lf = LockFile(lockpath, 1000, 1004)
+                lockfiles.append(lf)
+                t.mbx_lock = ParallelEtherCat.get_mbx_lock(SimpleNamespace(mbx_lock_file=lf),
+                                                           term.station)
+            t.parse_sync_managers(bytes(term.mem[0x800:0x810]))
+            return t
+        t = terminal()
+        terms = [t] + [terminal() for _ in sc["users"][1:]] if mode == "file-seq" else None
+
+        async def one(tt, i, u, kind):
+            ev.append(dict(ev="begin", u=u["name"], kind=kind))
+            try:
+                await do_op(tt, i, kind)
+                res = "ok"
+            except Exception as e:
+                res = f"{type(e).__name__}: {e}"[:80]
+            ev.append(dict(ev="end", u=u["name"], res=res))
+            outcomes.setdefault(u["name"], []).append(res)
 
         async def user(i, u):
             for _ in range(u["start"]):
                 await asyncio.sleep(0)
             for kind in u["ops"]:
-                ev.append(dict(ev="begin", u=u["name"], kind=kind))
-                try:
-                    await do_op(t, i, kind)
-                    res = "ok"
-                except Exception as e:
-                    res = f"{type(e).__name__}: {e}"[:80]
-                ev.append(dict(ev="end", u=u["name"], res=res))
-                outcomes.setdefault(u["name"], []).append(res)
-        tasks = [asyncio.ensure_future(user(i, u)) for i, u in enumerate(sc["users"], start=1)]
-        for task, u in zip(tasks, sc["users"]):
-            task.set_name(u["name"])
-        await asyncio.gather(*tasks)
+                await one(t, i, u, kind)
 
+        async def turn(tt, i, u, kind):
+            await one(tt, i, u, kind)
+        try:
+            if mode == "file-seq":
+                # round robin, one operation per turn, each turn a task named after its user
+                for k in range(max(len(u["ops"]) for u in sc["users"])):
+                    for i, u in enumerate(sc["users"], start=1):
+                        if k < len(u["ops"]):
+                            task = asyncio.ensure_future(turn(terms[i - 1], i, u, u["ops"][k]))
+                            task.set_name(u["name"])
+                            await task
+            else:
+                tasks = [asyncio.ensure_future(user(i, u)) for i, u in enumerate(sc["users"], start=1)]
+                for task, u in zip(tasks, sc["users"]):
+                    task.set_name(u["name"])
+                await asyncio.gather(*tasks)
+        finally:
+            for lf in lockfiles:
+                lf.close()
+
+    os.makedirs(LOCKDIR, exist_ok=True)
+    lockpath = os.path.join(LOCKDIR, "mbx")
+    if os.path.exists(lockpath):
+        os.remove(lockpath)
     logging.disable(logging.CRITICAL)
     stall = None
     try:
@@ -165,8 +217,14 @@ def run_scenario(sc):
 
 # ---- in-process scenarios ---------------------------------------------------------------
 OPLISTS = [["rd_exp"], ["rd_seg"], ["wr_exp", "rd_norm"], ["coe_list"], ["coe_od", "wr_exp"],
-           ["rd_ca", "rd_exp"], ["rd_seg", "rd_seg", "wr_exp"]]
-SCRIPTS = [["plain"], ["d1", "d3", "plain"], ["d3", "plain", "d1", "d1"]]
+           ["rd_ca", "rd_exp"], ["rd_seg", "rd_seg", "wr_exp"],
+           ["rd_missing", "rd_exp"], ["wr_exp", "wr_missing", "rd_norm"]]    # raise after the mail
+SCRIPTS = [["plain"], ["d1", "d3", "plain"], ["d3", "plain", "d1", "d1"], ["plain", "abort", "d1"]]
+# participants on the lock file: enough messages for the 7 -> 1 wrap, failures in between
+FILE_OPLISTS = [["rd_exp", "rd_missing", "rd_exp", "rd_exp"], ["wr_exp", "wr_missing", "rd_norm"],
+                ["rd_seg", "rd_exp"], ["coe_od", "rd_missing", "coe_list"], ["rd_exp"] * 5,
+                ["rd_missing"] * 3, ["rd_ca", "wr_exp", "rd_seg"]]
+FILE_SCRIPTS = [["plain"], ["plain", "plain", "abort"], ["abort", "d1", "plain", "plain", "abort"]]
 
 
 def scenarios(ctx):
@@ -178,6 +236,8 @@ def scenarios(ctx):
             for j, sc in enumerate(SCRIPTS):
                 if ctx.quick and (k + j) % 2:
                     continue
+                if j == 3 and k % 2:
+                    continue
                 out.append(dict(users=[dict(name="t1", ops=a, start=st[0]),
                                        dict(name="t2", ops=b, start=st[1])], script=sc * 8))
     l3 = OPLISTS[:4] if ctx.quick else OPLISTS
@@ -185,12 +245,25 @@ def scenarios(ctx):
         for st in ([(0, 0, 0), (2, 0, 1)] if ctx.quick else [(0, 0, 0), (2, 0, 1), (0, 4, 2), (1, 1, 0)]):
             out.append(dict(users=[dict(name=nm, ops=o, start=s) for nm, o, s in zip(names, (a, b, c), st)],
                             script=SCRIPTS[n % 3] * 10))
+    # participants with the cross-process lock (ParallelMailboxLock on a LockFile), taking turns
+    for a, b in itertools.product(FILE_OPLISTS, FILE_OPLISTS):
+        for j, sc in enumerate(FILE_SCRIPTS):
+            out.append(dict(lock="file-seq", users=[dict(name="t1", ops=a, start=0),
+                                                    dict(name="t2", ops=b, start=0)], script=sc * 8))
+    for a, b, c in itertools.product(FILE_OPLISTS[:3], FILE_OPLISTS[3:6], FILE_OPLISTS[:2]):
+        out.append(dict(lock="file-seq", users=[dict(name=nm, ops=o, start=0) for nm, o in
+                                                zip(names, (a, b, c))], script=FILE_SCRIPTS[1] * 8))
+    # tasks of one process sharing one ParallelMailboxLock
+    for a, b in itertools.product(OPLISTS[:4], OPLISTS[:4]):
+        out.append(dict(lock="file-tasks", users=[dict(name="t1", ops=a, start=0),
+                                                  dict(name="t2", ops=b, start=1)], script=["plain"] * 20))
     for _ in range(40 if ctx.quick else 300):           # extra random cases (not gating)
         k = ctx.rng.choice([2, 3])
         out.append(dict(users=[dict(name=names[i], ops=[ctx.rng.choice(sum(OPLISTS, [])) for _ in
                                                         range(ctx.rng.randrange(1, 6))],
                                     start=ctx.rng.randrange(0, 8)) for i in range(k)],
-                        script=[ctx.rng.choice(list(SLOTS)) for _ in range(40)], random=True))
+                        script=[ctx.rng.choice(list(SLOTS)) for _ in range(40)], random=True,
+                        lock=ctx.rng.choice(["task", "task", "file-seq"])))
     return out
 
 
@@ -244,7 +317,7 @@ CHECK_DEADLOCK FALSE
     return "mc_lockfile_" + which, res, dict(procs=procs, N=2)
 
 
-def tlc_schedules(ctx, same, cycles, maxfail, pre=False):
+def tlc_schedules(ctx, same, cycles, maxfail, pre=False, maxexc=1):
     wd = ctx.workdir()
     T.write_cfg(wd, "s.cfg", f"""SPECIFICATION SSpec
 CONSTANTS Procs = {{"p1", "p2"}}
@@ -252,6 +325,8 @@ CONSTANTS Procs = {{"p1", "p2"}}
           MaxFail = {maxfail}
           Same = {"TRUE" if same else "FALSE"}
           Pre = {"TRUE" if pre else "FALSE"}
+          Modes = {{"ok", "raise", "cancel"}}
+          MaxExc = {maxexc}
 INVARIANT Emit
 CHECK_DEADLOCK FALSE
 """)
@@ -327,14 +402,18 @@ def validate_mailbox(ctx, traces):
 def judge_inproc(ctx, sc, tr, result):
     matched, length, inv = result
     ctx.traces += 1
-    ctx.evaluated(("in", repr(sc)), nontrivial=overlap(tr["ev"]))
+    senders = {e["u"] for e in tr["ev"] if e["ev"] == "send"}
+    ctx.evaluated(("in", repr(sc)), nontrivial=overlap(tr["ev"]) or
+                  (sc.get("lock", "task") != "task" and len(senders) >= 2))
     if matched == length and not isinstance(inv, str):
         return
     bad = tr["ev"][matched] if matched < length else None
-    case = dict(part="in-process", scenario={k: v for k, v in sc.items()}, rejected_at=matched,
+    case = dict(part="in-process", lock=sc.get("lock", "task"),
+                scenario={k: v for k, v in sc.items()}, rejected_at=matched,
                 rejected_event=bad, outcomes=tr["outcomes"], stall=tr["stall"],
                 events=tr["ev"][max(0, matched - 6):matched + 2])
-    ctx.case_failed(case, f"in-process: mailbox trace leaves Mailbox.tla at event {matched}: {bad} "
+    ctx.case_failed(case, f"in-process ({sc.get('lock', 'task')} lock): mailbox trace leaves Mailbox.tla "
+                          f"at event {matched}: {bad} "
                           f"(users {[u['ops'] for u in sc['users']]})")
 
 
@@ -343,17 +422,21 @@ def judge_cross(ctx, sc, tr, result):
     ctx.traces += 1
     facts = window_facts(sc["schedule"], sc.get("pre"))
     contended = any(e["a"] == "try" and e.get("ok") is False for e in tr["ev"])
+    exits = {s.get("mode") or "ok" for s in sc["schedule"] if s["a"] == "read"}
     ctx.evaluated(("x", sc["same"], sc["nmsgs"], bool(sc.get("pre")), repr(sc["schedule"])),
-                  nontrivial=contended or bool(facts["window_acts"]))
+                  nontrivial=contended or bool(facts["window_acts"]) or bool(exits - {"ok"}))
     complete = length >= len(sc["schedule"])
     if matched == length and complete and not isinstance(inv, str):
         return
     bad = tr["ev"][matched] if matched < length else None
     case = dict(part="cross-process", same=sc["same"], nmsgs=sc["nmsgs"], schedule=sc["schedule"],
-                pre=sc.get("pre", []),
+                pre=sc.get("pre", []), exit_modes=sorted(exits),
+                rejected_hold_ends_by=(bad or {}).get("mode", ""),
+                write_back_skipped=bool((bad or {}).get("skipped")),
                 window=sc["window"], rejected_at=matched, rejected_event=bad,
                 events=tr["ev"][:matched + 1], **facts)
-    steps = " ".join(f"{s['p']}.{s['a']}" for s in sc["schedule"])
+    steps = " ".join(f"{s['p']}.{s['a']}" + (f"({s['mode']})" if s.get("mode") else "")
+                     for s in sc["schedule"])
     ctx.case_failed(case, f"cross-process: schedule [{steps}] (same terminal: {sc['same']}): step "
                           f"{matched} leaves LockFile.tla: {bad}")
 
@@ -361,13 +444,18 @@ def judge_cross(ctx, sc, tr, result):
 def run(ctx):
     from concurrent.futures import ThreadPoolExecutor
     quick = ctx.quick
+    # schedules: (same terminal, cycles, failing lock attempts, existing file, exceptional exits)
     jobs = [(tlc_mc_mailbox, (ctx,)),
             (tlc_mc_lockfile, (ctx, "BytesSame", 3)),
             (tlc_mc_lockfile, (ctx, "BytesMixed", 2 if quick else 3)),
-            (tlc_schedules, (ctx, True, 1 if quick else 2, 1)),
-            (tlc_schedules, (ctx, False, 1, 1)),
-            (tlc_schedules, (ctx, True, 2, 1, True))]      # existing file [6, 7]: counters wrap
-    with ThreadPoolExecutor(max_workers=6) as ex:
+            (tlc_schedules, (ctx, True, 1, 1, False, 2)),
+            (tlc_schedules, (ctx, False, 1, 1, False, 0 if quick else 1)),
+            # existing file [6, 7]: counters wrap; holds that end by exception are followed by
+            # further holds of the same and of the other participant
+            (tlc_schedules, (ctx, True, 2, 0, True, 1 if quick else 2))]
+    if not quick:
+        jobs.append((tlc_schedules, (ctx, True, 2, 1, True, 0)))
+    with ThreadPoolExecutor(max_workers=7) as ex:
         futs = [ex.submit(f, *a) for f, a in jobs]
         # meanwhile: the in-process runs on the real code
         scs = scenarios(ctx)
@@ -377,7 +465,7 @@ def run(ctx):
     for name, res, info in done:
         ctx.tlc_stats(res)
         if name.startswith("schedules"):
-            ctx.extra[name] = len(info)
+            ctx.extra[name] = ctx.extra.get(name, 0) + len(info)
             scheds += info
         else:
             ctx.extra[name] = dict(info, distinct=res.distinct, generated=res.generated)
@@ -387,6 +475,7 @@ def run(ctx):
         keep = [s for s in scheds if s["window"] > 0]
         rest = [s for s in scheds if s["window"] == 0]
         scheds = keep[::max(1, len(keep) // 3000)] + rest[::max(1, len(rest) // 3000)]
+    shutil.rmtree(LOCKDIR, ignore_errors=True)
     x_traces = replay_schedules(ctx, scheds)
     same_idx = [i for i, s in enumerate(scheds) if s["same"]]
     mixed_idx = [i for i, s in enumerate(scheds) if not s["same"]]
@@ -408,11 +497,16 @@ def run(ctx):
     ctx.exhaustive = False
     ctx.rule = ("in-process: products of operation lists (sdo_read expedited/normal/segmented/complete "
                 "access, expedited sdo_write, coe_request with fragmented answer) for 2 and 3 tasks x "
-                "start offsets x response-delay scripts (+ random); non-trivial = an operation begins "
-                "while another user's is in progress.  cross-process: every TLC-enumerated interleaving "
+                "start offsets x response-delay scripts, incl. operations that raise after their mail went "
+                "out (missing object, scripted abort); the same operations by 2-3 participants taking "
+                "turns on the real ParallelMailboxLock + LockFile, and by tasks sharing one "
+                "ParallelMailboxLock (+ random); non-trivial = an operation begins while another user's is "
+                "in progress, or two participants send through the lock file.  cross-process: every TLC-enumerated interleaving "
                 "of the system-call steps of 2 participants (same / different terminal, 1 cycle each, "
-                "<= 1 failing lock attempt; thorough: 2 cycles, strided) x 0..2 messages per hold; "
-                "non-trivial = a lock attempt fails or a step falls into the creation window")
+                "<= 1 failing lock attempt; on an existing file [6,7] 2 cycles each) x every hold ending by "
+                "return / exception / cancellation (bounded number of exceptional ends) x 0..2 messages "
+                "per hold; non-trivial = a lock attempt fails, a step falls into the creation window or "
+                "a hold ends exceptionally")
     ctx.assumptions.append("POSIX lock semantics are those of the sandbox kernel; the cross-process part "
                            "interleaves at system-call granularity (open, write, lockf, pread, pwrite)")
 
@@ -473,4 +567,66 @@ CANDIDATE_FIX = r'''
  
      async def __aexit__(self, a, b, c):
          os.pwrite(self.lock_file.fd, bytes((self.counter,)), self.no)
+'''
+
+
+def is_parallel_lock_not_task_safe(case, reason=None):
+    """tasks of ONE process sharing a ParallelMailboxLock (ParallelEtherCat.get_mbx_lock) are not
+    excluded from each other: POSIX lockf locks belong to the process, so the second task's
+    non-blocking lockf succeeds while the first still holds the mailbox - interleaved exchanges,
+    stolen responses, repeated counters, `counter` None (lock.py, ParallelMailboxLock.__aenter__)"""
+    return case.get("part") == "in-process" and case.get("lock") == "file-tasks"
+
+
+# Candidate repair for the class above, validated with this check in a scratch copy (every case
+# accepted, cross-process schedules included): an asyncio.Lock around the byte lock.
+CANDIDATE_FIX_TASKS = r'''
+--- a/ebpfcat/lock.py
++++ b/ebpfcat/lock.py
+@@ -67,23 +67,32 @@
+         assert self.lock_file.minimum <= no < self.lock_file.maximum
+         self.no = no - self.lock_file.minimum
+         self.counter = None
++        self.task_lock = Lock()  # lockf does not exclude tasks of one process
+ 
+     async def __aenter__(self):
+-        while True:
+-            try:
+-                fcntl.lockf(self.lock_file.fd, fcntl.LOCK_NB | fcntl.LOCK_EX,
+-                            1, self.no)
+-            except OSError:
+-                await sleep(0)
+-                continue
+-            break
+-        data = os.pread(self.lock_file.fd, 1, self.no)
+-        self.counter = data[0] if data else 0
++        await self.task_lock.acquire()
++        try:
++            while True:
++                try:
++                    fcntl.lockf(self.lock_file.fd,
++                                fcntl.LOCK_NB | fcntl.LOCK_EX, 1, self.no)
++                except OSError:
++                    await sleep(0)
++                    continue
++                break
++            data = os.pread(self.lock_file.fd, 1, self.no)
++            self.counter = data[0] if data else 0
++        except BaseException:
++            self.task_lock.release()
++            raise
+ 
+     async def __aexit__(self, a, b, c):
+-        os.pwrite(self.lock_file.fd, bytes((self.counter,)), self.no)
+-        fcntl.lockf(self.lock_file.fd, fcntl.LOCK_UN, 1, self.no)
+-        self.counter = None
++        try:
++            os.pwrite(self.lock_file.fd, bytes((self.counter,)), self.no)
++            fcntl.lockf(self.lock_file.fd, fcntl.LOCK_UN, 1, self.no)
++            self.counter = None
++        finally:
++            self.task_lock.release()
+ 
+     def next_counter(self):
+         ret = self.counter
 '''
